@@ -529,6 +529,18 @@ func init() {
 	intrinsics["fmt.Print"] = nopPrint
 	intrinsics["log.Printf"] = func(in *Interp, c *callCtx) Value { return nil }
 	intrinsics["log.Println"] = func(in *Interp, c *callCtx) Value { return nil }
+	intrinsics["strings.Join"] = func(in *Interp, c *callCtx) Value {
+		elems := c.args[0].(SliceV)
+		sep := c.args[1].(Str)
+		var ps []piece
+		for i := 0; i < elems.len; i++ {
+			if i > 0 {
+				ps = append(ps, in.strToPieces(sep)...)
+			}
+			ps = append(ps, in.strToPieces(in.load(in.elem(elems.arr, elems.off+i)).(Str))...)
+		}
+		return in.mkRope(ps)
+	}
 	intrinsics["strconv.Itoa"] = func(in *Interp, c *callCtx) Value {
 		return in.mkRope([]piece{{kind: 2, dec: c.args[0].(*Term), sign: true}})
 	}
